@@ -184,7 +184,7 @@ def run(prop, tier, seed):
         for i in range((600 if thorough else 80) if prop == "C08" else (300 if thorough else 60)):
             cmds = [dict(c="sched", cls="ev", target="m1", abs=True, d=t, kind="once", per=0, slot="k1", prog=1)
                     for t in range(2, 14, 2)]
-            cmds += [dict(c="step") if rng.random() < 0.7 else dict(c="step_until", abs=False, d=rng.randint(1, 2))
+            cmds += [dict(c="step") if rng.random() < 0.65 else dict(c="step_until", abs=False, d=rng.randint(1, 3))
                      for _ in range(8)]
             xs = []
             for _ in range(10):
@@ -193,7 +193,7 @@ def run(prop, tier, seed):
                 xs.append(dict(target=rng.choice(["m1", "m2"]), abs=absd, d=rng.randint(1, 13) if absd else rng.randint(0, 2),
                                kind=kind, per=rng.randint(0, 3) if "periodic" in kind else 0, slot="k3", prog=1))
             runs.append(dict(id=i + 1, threads=rng.choice((1, 4)), tick_ns=1, t0_secs=0, lags=[], cmds=cmds, xsched=xs,
-                             x_gap_us=rng.choice((0, 20, 50)), delay_point=rng.choice((40, 40, 42, 43, 44, 44, 0)),
+                             x_gap_us=rng.choice((0, 20, 50)), delay_point=rng.choice((40, 40, 42, 43, 44, 44, 45, 45, 0)),
                              delay_us=rng.choice((100, 300))))
         validate_runs(chk, prop, b, runs, "scheduling thread racing step()", wd, "race")
     chk.assumptions = TRUSTED + [
